@@ -50,6 +50,7 @@ TraceInit ==
 Step(e) ==
     LET a == e.act IN
     \/ a.op = "AddObj" /\ AddObj(a.s, a.x)
+    \/ a.op = "AddMany" /\ AddMany(a.s, ToSet(a.xs))
     \/ a.op = "Tamper" /\ Tamper(a.s, a.o)
     \/ a.op = "ExtDelete" /\ ExtDelete(a.s, a.o)
     \/ a.op = "Check" /\ Check(a.s, a.o, a.ro)
@@ -70,7 +71,7 @@ ObsLast(e) ==
             [op |-> "cmpstatus", ok |-> ToSet(r.ok), missing |-> ToSet(r.missing), new |-> ToSet(r.new), deleted |-> ToSet(r.deleted)]
       [] r.op = "xstatus" /\ "exc" \notin DOMAIN r -> [op |-> "xstatus", new |-> ToSet(r.new), missing |-> ToSet(r.missing)]
       [] r.op = "transfer" /\ "exc" \notin DOMAIN r -> [op |-> "transfer", transferred |-> ToSet(r.transferred), failed |-> ToSet(r.failed)]
-      [] r.op = "add" -> [op |-> "add", new |-> ToSet(r.new)]
+      [] r.op = "add" /\ "exc" \notin DOMAIN r -> [op |-> "add", new |-> ToSet(r.new)]
       [] OTHER -> r
 
 Match ==
@@ -147,6 +148,11 @@ Judge ==
                 \A o \in Oids : T[s][o] = "ok_u" => o \in unfin') \/ Say("VERDICT", "C01", "Protected"))
     /\ ((op \notin {"Tamper", "ExtDelete", "Gc"} => C07_IntactUnharmed(S, T)) \/ Say("VERDICT", "C07", "IntactUnharmed"))
     /\ ((op \in QueryOps => C07_NoBlessing(S, T)) \/ Say("VERDICT", "C07", "CorruptObjectBlessed"))
+    \* ---- build + transfer out of a staging store: what it reports as moved is there afterwards, and so is all it was asked for
+    /\ ((op \in {"AddObj", "AddMany"} /\ L.op = "add" /\ ~Refusal(L)) =>
+          /\ ((\A o \in L.new : Present(T, a.s, o)) \/ Say("VERDICT", "C11", "Arrived"))
+          /\ (LET X == IF op = "AddObj" THEN {a.x} ELSE ToSet(a.xs)
+              IN (\A o \in X \cup ListsOf(X) : Present(T, a.s, o)) \/ Say("VERDICT", "C11", "AbsentReported")))
     \* ---- end of a transfer -------------------------------------------------
     /\ (op = "TransferEnd" /\ L.op = "transfer" /\ ~Refusal(L)) =>
          /\ (C11_Disjoint(L) \/ Say("VERDICT", "C11", "Disjoint"))
